@@ -1,5 +1,5 @@
 """C04 - spot balances equal a cash-account model (DESIGN 5/C04). Session-monitor part."""
-from simlab.checklib import SessionCheck
+from simlab.checklib import MixedCheck
 from simlab.mon_orders import Registry
 from simlab.mon_accounts import AccountMonitor
 from .common import COMMON_REAL, COMMON_STUB
@@ -16,12 +16,19 @@ def profile(st):
     }
 
 
-CHECK = SessionCheck(
+CHECK = MixedCheck(
     prop='C04', profile=profile,
     monitors=lambda: [Registry(), AccountMonitor(('C04',))],
-    tiers={'quick': 1000, 'thorough': 60_000},
+    tiers={'quick': 300, 'thorough': 30_000},
+    ops_profile={'type': 'spot', 'spot_plain_sells': True}, ops_tiers={'quick': 4000, 'thorough': 600_000},
+    ops_nontrivial=lambda r: r['counters'].get('c04_compares', 0) >= 5,
     nontrivial=lambda r: r['counters'].get('c04_compares', 0) > 50,
-    rule='sessions (spot) with the CashAccount reference fed by the order seams, compared after every operation and at every hook',
+    rule=('operation runs: real store/exchange/positions/orders/broker of a spot session, the seeded scheduler draws 5-60 operations '
+          '(buy MARKET/LIMIT/STOP, reduce-only sells, cancel, cancel-then-bigger-sell, fill any resting order, flush, boundary buys '
+          'exactly at / above the free quote, decimal quantities with 0-8 places); plus session runs with the same monitor. After '
+          'every operation quote, base and position size are compared with the CashAccount reference (decimal helper contract), '
+          'balances must stay >= 0, no short, and InsufficientBalance must be raised iff the stated rule says so. non-trivial = >=5 '
+          'comparisons; distinct = trace signature + op kinds'),
     assumptions=[], real_components=COMMON_REAL, stub_components=COMMON_STUB,
     fault_kinds=['c04_sell_clipped_to_base', 'c04_boundary_submissions'],
     probes=['c04_compares', 'rejections_seen'],
